@@ -588,7 +588,7 @@ def run(scen, ctx):
     op = scen['op']
     if scen.get('_create_err'):
         return {'classCreateError': scen['_create_err']}
-    if op in ('from_data', 'try_collect', 'into_data', 'roundtrip', 'render', 'build', 'convert2'):
+    if op in ('from_data', 'try_collect', 'into_data', 'roundtrip', 'render', 'build', 'convert2', 'io'):
         T, conv, custom = build(ctx, scen)
         if conv is None:
             return custom
@@ -615,7 +615,7 @@ def run(scen, ctx):
             out = {'try': tr, 'collect': co}
         elif op == 'into_data':
             try:
-                out = {'ok': ctx.enc(conv.into_data(val))}
+                out = {'ok': ctx.enc(pane.into_data(val, T, custom=custom) if scen.get('api', True) else conv.into_data(val))}
             except BaseException as e:  # noqa
                 out = {'raises': map_exc(e)}
         elif op == 'render':
@@ -626,6 +626,8 @@ def run(scen, ctx):
                 out = {'text': render_text(e), 'tree': enc_tree(ctx, e.tree)}
             except BaseException as e:  # noqa
                 out = {'raises': map_exc(e)}
+        elif op == 'io':
+            out = run_io(scen, ctx, T, conv, val)
         elif op == 'convert2':
             r = result_of(ctx, lambda: conv.convert(val))
             if 'value' not in r:
@@ -647,7 +649,7 @@ def run(scen, ctx):
             else:
                 x = conv.convert(val)
                 try:
-                    d = conv.into_data(x)
+                    d = pane.into_data(x, T, custom=custom) if scen.get('api', True) else conv.into_data(x)
                 except BaseException as e:  # noqa
                     out = {'x': ctx.enc(x), 'd_raises': map_exc(e)}
                 else:
@@ -1255,3 +1257,259 @@ def oracle_c11(ctx, scen, T, conv, val, out):
 
 
 ORACLES = {'c03': oracle_c03, 'c04': oracle_c04, 'c07': oracle_c07, 'c08': oracle_c08, 'c11': oracle_c11}
+
+
+# ------------------------------------------------------------------------------------------------
+# C10: histories of (build type, convert, drop type, collect garbage, convert with custom handlers) on the real interpreter
+def _fn_handler(ty, args, *, handlers):
+    if ty is int:
+        return _FN_CONV
+    return NotImplemented
+
+
+_FN_CONV = TagConv('tagint:2')
+_DICT_CONV = TagConv('tagint:3')
+TYPE_POOL = [lambda: list[int], lambda: dict[str, float], lambda: list[str], lambda: tuple[int, str], lambda: (int, str),
+             lambda: {'a': int}, lambda: set[int], lambda: dict[str, list[int]], lambda: int | None, lambda: list[float],
+             lambda: dict[str, int], lambda: tuple[int, ...]]
+
+
+def _handlers(hk):
+    return None if hk == 0 else _fn_handler if hk == 1 else {int: _DICT_CONV}
+
+
+def _sig(conv):
+    try:
+        return (type(conv).__name__, conv.expected(True), conv.expected(False))
+    except Exception as e:  # noqa
+        return ('?', repr(e))
+
+
+def run_history(scen):
+    """replay an abstract history with REAL type objects; returns (impl observations, model ops carrying the real ids)"""
+    import threading
+    from pane.convert import make_converter, ConverterHandlers
+    fresh = {}
+    for d in range(len(TYPE_POOL)):
+        for hk in (0, 1, 2):
+            try:
+                fresh[(d, hk)] = _sig(make_converter.inner_f(TYPE_POOL[d](), ConverterHandlers.make(_handlers(hk))))
+            except Exception as e:  # noqa
+                fresh[(d, hk)] = ('build-error', type(e).__name__)
+    slots, desc = {}, {}
+    ops, obs = [], []
+    uniq = [1000]
+    notes = []
+    for o in scen['hist']:
+        k = o[0]
+        if k == 'alloc':
+            _, s, d = o
+            slots.pop(s, None)
+            obj = TYPE_POOL[d]()
+            slots[s], desc[s] = obj, d
+            ops.append({'k': 'alloc', 's': s, 'd': d, 'a': str(id(obj))})
+        elif k == 'drop':
+            if o[1] in slots:
+                del slots[o[1]]
+            ops.append({'k': 'drop', 's': o[1]})
+            ops.append({'k': 'gc'})      # CPython frees on the last reference; the model frees on gc
+        elif k == 'gc':
+            gc.collect()
+            ops.append({'k': 'gc'})
+        elif k == 'churn':
+            # same-size garbage to provoke address reuse
+            junk = [TYPE_POOL[o[1] % len(TYPE_POOL)]() for _ in range(o[2])]
+            del junk
+        elif k == 'call':
+            _, s, hk = o
+            if s not in slots:
+                continue
+            hid = hk
+            if hk == 2:
+                uniq[0] += 1
+                hid = uniq[0]        # a mapping-form handler is wrapped in a fresh closure per call: never equal to an earlier one
+            try:
+                conv = make_converter(slots[s], ConverterHandlers.make(_handlers(hk)))
+                sg = _sig(conv)
+            except Exception as e:  # noqa
+                sg = ('build-error', type(e).__name__)
+            want = fresh[(desc[s], hk)]
+            if sg == want:
+                obs.append([desc[s], hid])
+            else:
+                match = [d for (d, h2), v in fresh.items() if v == sg and h2 == hk]
+                obs.append([match[0] if match else -1, hid])
+                notes.append(f'call on slot {s} (type #{desc[s]}, handlers #{hk}) returned a converter with signature {sg!r}; a fresh build gives {want!r}')
+            ops.append({'k': 'call', 's': s, 'h': hid})
+    # concurrent use: several threads look up the live slots at once; every result must be the fresh one
+    nthreads = scen.get('threads', 0)
+    if nthreads and slots:
+        import sys as _sys
+        old = _sys.getswitchinterval()
+        _sys.setswitchinterval(1e-6)
+        res = []
+        lock = threading.Lock()
+        def work(seed):
+            import random as _r
+            rr = _r.Random(seed)
+            for _ in range(30):
+                s = rr.choice(list(slots))
+                hk = rr.choice([0, 1])
+                try:
+                    sg = _sig(make_converter(slots[s], ConverterHandlers.make(_handlers(hk))))
+                except Exception as e:  # noqa
+                    sg = ('error', type(e).__name__)
+                if sg != fresh[(desc[s], hk)]:
+                    with lock:
+                        res.append((s, hk, sg))
+        ths = [threading.Thread(target=work, args=(i,)) for i in range(nthreads)]
+        for th in ths:
+            th.start()
+        for th in ths:
+            th.join()
+        _sys.setswitchinterval(old)
+        for s, hk, sg in res[:3]:
+            notes.append(f'thread: slot {s} handlers #{hk} returned {sg!r}, fresh is {fresh[(desc[s], hk)]!r}')
+    scen['ops'] = ops
+    scen['_oracle'] = {'c10': notes[0] if notes else None}
+    return {'obs': obs}
+
+
+def run_lru(scen):
+    from pane.util import KeyCache
+    calls = []
+    def f(k):
+        calls.append(k)
+        return k * 7 + 1
+    kc = KeyCache(f, lambda k: k, maxsize=scen['maxsize'])
+    results = []
+    for k in scen['keys']:
+        try:
+            results.append(kc(k))
+        except Exception as e:  # noqa
+            return {'raises': type(e).__name__}
+    order = []
+    link = kc._root[1]
+    n = 0
+    while link is not kc._root and n < 10000:
+        order.append(link[2])
+        link = link[1]
+        n += 1
+    scen['_oracle'] = {'c10': None if len(kc.cache) <= scen['maxsize'] and results == [k * 7 + 1 for k in scen['keys']] else
+                       f'LRU cache holds {len(kc.cache)} entries for maxsize {scen["maxsize"]} or returned a wrong value'}
+    return {'results': results, 'order': order}
+
+
+# ------------------------------------------------------------------------------------------------
+# C19: real files / streams, every formatting option
+def run_io(scen, ctx, T, conv, val):
+    import io as _io, tempfile, shutil, warnings, builtins, pathlib
+    from pane import io as pio
+    r = result_of(ctx, lambda: conv.convert(val))
+    if 'value' not in r:
+        return r
+    x = conv.convert(val)
+    fmt, sink, opts = scen['fmt'], scen['sink'], dict(scen.get('opts') or {})
+    write = pio.write_json if fmt == 'json' else pio.write_yaml
+    read = pio.from_json if fmt == 'json' else pio.from_yaml
+    tmp = tempfile.mkdtemp(prefix='pane-io-')
+    stream_open = True
+    opened = []   # every file pane itself opens: (file object, encoding asked for)
+
+    def rec_open(file, mode='r', *a, **kw):
+        f = builtins.open(file, mode, *a, **kw)
+        opened.append((f, kw.get('encoding'), mode))
+        return f
+
+    pio.open = rec_open   # module-level name shadows the builtin inside pane.io only
+    try:
+        with warnings.catch_warnings(record=True) as wlist:
+            warnings.simplefilter('always', ResourceWarning)
+            try:
+                if sink in ('strpath', 'path', 'method_file'):
+                    p = os.path.join(tmp, 'doc.' + fmt)
+                    target = p if sink == 'strpath' else pathlib.Path(p)
+                    if sink == 'method_file':
+                        (x.write_json if fmt == 'json' else x.write_yaml)(target, **opts)
+                        x2 = result_of(ctx, lambda: (type(x).from_json if fmt == 'json' else type(x).from_yaml)(target))
+                    else:
+                        write(x, target, ty=T, **opts)
+                        x2 = result_of(ctx, lambda: read(target, T))
+                    with builtins.open(p, 'rb') as fh:
+                        raw = fh.read()
+                    try:
+                        raw.decode('utf-8')
+                    except UnicodeDecodeError:
+                        x2 = {'raises': 'file-not-utf8'}
+                elif sink in ('stringio', 'method_stream'):
+                    f = _io.StringIO()
+                    if sink == 'method_stream':
+                        (x.write_json if fmt == 'json' else x.write_yaml)(f, **opts)
+                    else:
+                        write(x, f, ty=T, **opts)
+                    stream_open = not f.closed
+                    f.seek(0)
+                    x2 = result_of(ctx, lambda: read(f, T))
+                    stream_open = stream_open and not f.closed
+                elif sink == 'textfile':
+                    p = os.path.join(tmp, 'doc.' + fmt)
+                    with builtins.open(p, 'w+', encoding=scen.get('enc', 'utf-8')) as f:
+                        write(x, f, ty=T, **opts)
+                        stream_open = not f.closed
+                        f.seek(0)
+                        x2 = result_of(ctx, lambda: read(f, T))
+                        stream_open = stream_open and not f.closed
+                elif sink == 'method':
+                    s = (x.write_json if fmt == 'json' else x.write_yaml)(**opts)
+                    if not isinstance(s, str):
+                        x2 = {'raises': 'method-returned-' + type(s).__name__}
+                    else:
+                        x2 = result_of(ctx, lambda: (type(x).from_jsons if fmt == 'json' else type(x).from_yamls)(s))
+                elif sink in ('yaml_all', 'yaml_all_path'):
+                    n = scen.get('ndocs', 2)
+                    text = ''.join(pio_write_str(pio, x, T, opts) for _ in range(n))
+                    if sink == 'yaml_all_path':
+                        p = os.path.join(tmp, 'docs.yaml')
+                        with builtins.open(p, 'w', encoding='utf-8') as fh:
+                            fh.write(text)
+                        xs = result_of(ctx, lambda: pio.from_yaml_all(p, T))
+                    else:
+                        f = _io.StringIO(text)
+                        xs = result_of(ctx, lambda: pio.from_yaml_all(f, T))
+                        stream_open = not f.closed
+                    # one converted value per document: report the first when all n are present and equal
+                    docs_out = xs['value'].get('l') if 'value' in xs and isinstance(xs['value'], dict) else None
+                    if docs_out is not None and len(docs_out) == n and all(canon(o) == canon(docs_out[0]) for o in docs_out):
+                        x2 = {'value': docs_out[0]}
+                    else:
+                        x2 = xs
+                else:
+                    raise ValueError(sink)
+            except ConvertError as e:
+                x2 = {'convertError': enc_tree(ctx, e.tree)}
+            except BaseException as e:  # noqa
+                x2 = {'raises': map_exc(e), 'msg': str(e)[:200]}
+            path_closed = all(f.closed for f, _, _ in opened)
+            utf8 = all(str(enc).lower().replace('-', '') == 'utf8' for _, enc, _ in opened)
+            n_opened = len(opened)
+            del opened[:]
+        if any(issubclass(w.category, ResourceWarning) for w in wlist):
+            path_closed = False
+    finally:
+        try:
+            del pio.open
+        except AttributeError:
+            pass
+        shutil.rmtree(tmp, ignore_errors=True)
+    out = {'x': ctx.enc(x), 'x2': x2, 'stream_open': stream_open}
+    if sink in ('strpath', 'path', 'method_file', 'yaml_all_path'):
+        out['path_closed'] = path_closed and n_opened >= 1
+        out['utf8'] = utf8
+    return out
+
+
+def pio_write_str(pio, x, T, opts):
+    import io as _io
+    f = _io.StringIO()
+    pio.write_yaml(x, f, ty=T, **dict(opts, explicit_start=True))
+    return f.getvalue()
